@@ -29,7 +29,7 @@ end
 
 /-- the selection of an extracted client field: every variable is passed through under its own name -/
 def callOf (name : String) (vars : List VarDef) : LSel :=
-  .scalar ⟨name, vars.map (fun d => ⟨d.name, .var d.name, []⟩), []⟩
+  .scalar ⟨name, vars.map (fun d => ⟨d.name, .var d.name⟩), []⟩
 
 /-- `ty.name` is a client field with variables `vars` (no defaults) whose selection set is `body` -/
 structure Extracted (p : Project) (expand : Expand) (ty name : String) (vars : List VarDef)
@@ -589,7 +589,7 @@ end
 /-! #### the call of the extracted field -/
 
 /-- the arguments of `callOf` -/
-def callArgs (vars : List VarDef) : List LArg := vars.map (fun d => ⟨d.name, .var d.name, []⟩)
+def callArgs (vars : List VarDef) : List LArg := vars.map (fun d => ⟨d.name, .var d.name⟩)
 
 theorem hereOf_call (c : VarCtx) {vars : List VarDef} (k i : Nat) {d : VarDef} (hd : d ∈ vars) :
     hereOf c (callArgs vars) k i d = ctxGet c d.name := by
